@@ -288,10 +288,12 @@ def run_query(q, keep=False):
             res.reason = "cbmc gave no verdict (rc=%s): %s" % (rc, o[-1500:])
             return res
         unwind_fail = [k for k, (d, s) in res.props.items() if ".unwind." in k and s != "SUCCESS"]
-        if unwind_fail:
+        wit = {k: v for k, v in res.props.items() if v[0].startswith("witness")}
+        viol0 = [(k, d) for k, (d, s) in res.props.items() if s != "SUCCESS" and k not in wit and ".unwind." not in k]
+        if unwind_fail and not viol0:
+            # SUCCESS verdicts mean nothing beyond the bound; a FAILURE found inside the bound is still a real counterexample
             res.reason = "unwinding assertion failed: " + ",".join(unwind_fail[:5])
             return res
-        wit = {k: v for k, v in res.props.items() if v[0].startswith("witness")}
         wit_unreached = [k for k, (d, s) in wit.items() if s != "FAILURE"]
         viol = [(k, d) for k, (d, s) in res.props.items()
                 if s != "SUCCESS" and k not in wit and ".unwind." not in k]
